@@ -256,6 +256,68 @@ func (a Bytes) M__iadd__(other Object) (Object, error) {
 	return a.M__add__(other)
 }
 
+func (a Bytes) M__len__() (Object, error) {
+	return Int(len(a)), nil
+}
+
+func (a Bytes) M__bool__() (Object, error) {
+	return NewBool(len(a) > 0), nil
+}
+
+func (a Bytes) M__iter__() (Object, error) {
+	return NewIterator(a), nil
+}
+
+func (a Bytes) M__getitem__(key Object) (Object, error) {
+	if slice, ok := key.(*Slice); ok {
+		start, stop, step, slicelength, err := slice.GetIndices(len(a))
+		if err != nil {
+			return nil, err
+		}
+		if step == 1 {
+			if stop < start {
+				stop = start
+			}
+			// Return a subslice since bytes are immutable
+			return a[start:stop], nil
+		}
+		newBytes := make(Bytes, slicelength)
+		for i, j := start, 0; j < slicelength; i, j = i+step, j+1 {
+			newBytes[j] = a[i]
+		}
+		return newBytes, nil
+	}
+	i, err := IndexIntCheck(key, len(a))
+	if err != nil {
+		return nil, err
+	}
+	return Int(a[i]), nil
+}
+
+func (a Bytes) M__mul__(other Object) (Object, error) {
+	if b, ok := convertToInt(other); ok {
+		m := len(a)
+		n := int(b) * m
+		if n < 0 {
+			n = 0
+		}
+		newBytes := make(Bytes, n)
+		for i := 0; i < n; i += m {
+			copy(newBytes[i:i+m], a)
+		}
+		return newBytes, nil
+	}
+	return NotImplemented, nil
+}
+
+func (a Bytes) M__rmul__(other Object) (Object, error) {
+	return a.M__mul__(other)
+}
+
+func (a Bytes) M__imul__(other Object) (Object, error) {
+	return a.M__mul__(other)
+}
+
 func (a Bytes) Replace(args Tuple) (Object, error) {
 	var (
 		pyold Object = None
@@ -281,6 +343,13 @@ var (
 	_ richComparison = (Bytes)(nil)
 	_ I__add__       = (Bytes)(nil)
 	_ I__iadd__      = (Bytes)(nil)
+	_ I__len__       = (Bytes)(nil)
+	_ I__bool__      = (Bytes)(nil)
+	_ I__iter__      = (Bytes)(nil)
+	_ I__getitem__   = (Bytes)(nil)
+	_ I__mul__       = (Bytes)(nil)
+	_ I__rmul__      = (Bytes)(nil)
+	_ I__imul__      = (Bytes)(nil)
 )
 
 func init() {
